@@ -431,3 +431,7 @@ def check(run, replay=None):
     run.require_counter("rotated_vs_grain_voxels", 50)
     run.require_counter("rotation_kernel_voxels", 50)
     run.require_counter("map_mag_0.1", 1)
+
+
+# workloads added in seeding rounds 7-10 (DESIGN.md sections 13.9-13.12)
+LEVEL_TEXT = LEVEL_TEXT + ' Later additions: scratch-array histories, reference lattice built by the harness from the cell parameters, reference cells within 1e-3 degree of right angles, phase ids as arbitrary dictionary keys, labels maps with repeating values.'
